@@ -174,7 +174,7 @@ func installBody(r *explore.Run, rep *report.R, sc string, ci, flags, maxPerm in
 		nt = report.Hash("install", constraint, fmt.Sprint(tags))
 	}
 	rep.Eval(sc, report.Hash("install", got, o.resolved, o.err != nil), nt)
-	if nt != "" && len(tags) >= 3 && wantSample(rep, fmt.Sprintf("install/%d", ci)) {
+	if nt != "" && len(tags) >= 3 && len(ref.tags) > 0 && wantSample(rep, "install") {
 		rep.Sample(map[string]any{"part": "install", "constraint": constraint, "tags": tags, "flags": flags, "selected": got, "reference": ref.String(), "choices": append([]int{}, r.Choices...), "scenario": sc})
 	}
 }
@@ -276,7 +276,7 @@ func upgradeBody(r *explore.Run, rep *report.R, sc string, c1, ii, maxPerm int, 
 		}
 	}
 	rep.Eval(sc, report.Hash("upgrade", class, got, o.resolved, o.err != nil), nt)
-	if nt != "" && len(tags) >= 3 && len(parents) == 2 && wantSample(rep, fmt.Sprintf("upgrade/%d/%d", c1, flags)) {
+	if nt != "" && len(tags) >= 3 && len(parents) == 2 && got != installed && wantSample(rep, "upgrade") {
 		rep.Sample(map[string]any{"part": "upgrade", "installed": installed, "in_lock": inLock, "parent_constraints": parents, "tags": tags, "flags": flags, "selected": got, "choices": append([]int{}, r.Choices...), "scenario": sc})
 	}
 }
